@@ -1,6 +1,6 @@
 """C18 - snoopyctl enable adds exactly one entry and preserves the file.
 
-All ld.so.preload contents of <= 3 (quick) / <= 4 reduced (thorough) lines over a 20-line alphabet, with and
+All ld.so.preload contents of <= 3 (quick) / <= 4 reduced (thorough) lines over a 22-line alphabet, with and
 without final newline, plus absent/empty, run through the real snoopyctl (built from the tree, ASan):
 enable, enable;enable, status after enable.  Oracle taken directly from the statement.
 """
@@ -90,5 +90,5 @@ def run(ck):
         if len(samples) < 5 and evals % 3001 == 0:
             samples.append({'file': (f or b'').replace(LIB, b'LIB').decode('latin-1'), 'rc': steps[0][0], 'changed': steps[0][1] != f})
     ck.coverage(states=len(outcomes), transitions=evals, traces_validated_against_impl=evals, evaluations=evals, distinct_nontrivial=len(outcomes), files=len(fs),
-                rule='all files up to the line bound over the 20-line alphabet x {final newline, none} + absent + empty, each: enable, enable, status; distinct = (exit code, changed?, status ok?, #active mentions, absent?, final newline?, failure set)',
+                rule='all files up to the line bound over the 22-line alphabet x {final newline, none} + absent + empty, each: enable, enable, status; distinct = (exit code, changed?, status ok?, #active mentions, absent?, final newline?, failure set)',
                 samples=samples or [{'note': 'none'}])
